@@ -13,6 +13,7 @@ func init() {
 				{Dir: "netutil", Func: "VerifC12NoMapped", Opts: o},
 				{Dir: "netutil", Func: "VerifC12NetAddr", Opts: o},
 				{Dir: "netutil", Func: "VerifC12Subnet", Opts: o},
+				{Dir: "netutil", Func: "VerifC12SubnetMapped4", Opts: o},
 				{Dir: "netutil", Func: "VerifC12Compare", Opts: o},
 				{Dir: "netutil", Func: "VerifC12Sort", Opts: o},
 			}
@@ -23,10 +24,11 @@ func init() {
 				n = "5"
 			}
 			return map[string]string{
-				"conversions": "net.IP of length nil, 0, 3, 4, 5, 12, 15, 16, 17 with all bytes symbolic; both families; net.Addr in {TCP, UDP, IP, Unix} with symbolic IP, port (all 16-bit values) and zone (0..2 bytes)",
-				"subnets":     "no value bound: every 4-/16-byte IP, every mask of the same length (canonical, non-contiguous) or nil, and every probe address x of that length (16-byte x with x[10]=0xff excluded, see assumptions)",
-				"comparators": "all pairs of netip.Addr of every kind (zero, IPv4, IPv6, zoned IPv6; all address bits symbolic)",
-				"sorting":     "slices.SortFunc on slices of length 0.." + n + " with elements invalid / IPv4 0.0.0.b / IPv6 ::b (b symbolic)",
+				"conversions":           "net.IP of length nil, 0, 3, 4, 5, 12, 15, 16, 17 with all bytes symbolic; both families; net.Addr in {TCP, UDP, IP, Unix} with symbolic IP, port (all 16-bit values) and zone (0..2 bytes)",
+				"subnets":               "no value bound: every 4-/16-byte IP, every mask of the same length (canonical, non-contiguous) or nil, and every probe address x of that length (16-byte x with x[10]=0xff excluded, see assumptions)",
+				"subnets, 16-byte IPv4": "every IPv4-mapped 16-byte IP with every 4-byte mask (the converted address is the 4-byte form) through IPNetToPrefixNoMapped and IPNetToPrefix(IPv4), every 4-byte probe address",
+				"comparators":           "all pairs of netip.Addr of every kind (zero, IPv4, IPv6, zoned IPv6; all address bits symbolic)",
+				"sorting":               "slices.SortFunc on slices of length 0.." + n + " with elements invalid / IPv4 0.0.0.b / IPv6 ::b (b symbolic)",
 			}
 		},
 		Outside:     []string{"slices longer than the bound (pdqsort beyond its insertion-sort regime)", "IPv4-mapped probe addresses against IPv6 networks: package net treats them as IPv4 (never inside an IPv6 network), netip as IPv6", "subnets whose mask length differs from the converted address length (outside the statement)"},
